@@ -118,7 +118,7 @@ class C02(RunProp):
                 if name.startswith("async"):
                     av = dict((k, v) for k, v in o["values"])
                     for k, v in ref["values"]:
-                        if k in av and av[k] != v:
+                        if k in av and impl.differ(av[k], v):
                             writers = {c[0] for c in o["calls"]} & {f"{gi}:{n['name']}" for gi, g in enumerate(case["program"]) for n in g["nodes"] if k in n.get("dataOuts", [])}
                             if len(writers) >= 2:
                                 return (f"{name}: partial value {k!r} = {av[k]!r} differs from sync's {v!r} — two producers of {k!r} ran in the failing step "
@@ -127,9 +127,9 @@ class C02(RunProp):
                         if k not in av:
                             return f"{name}: sync partial value {k!r} missing from the async result"
                 continue
-            if dict((k, v) for k, v in o["values"]) != dict((k, v) for k, v in ref["values"]):
+            if impl.differ(dict((k, v) for k, v in o["values"]), dict((k, v) for k, v in ref["values"])):
                 return f"{name}: values differ from the sync run: {o['values']!r} vs {ref['values']!r}"
-            if impl.sort_calls(o["calls"]) != impl.sort_calls(ref["calls"]):
+            if impl.differ(impl.sort_calls(o["calls"]), impl.sort_calls(ref["calls"])):
                 return f"{name}: multiset of node invocations differs from the sync run"
         return None
 
